@@ -4,6 +4,7 @@ import (
 	"encoding/json"
 	"flag"
 	"fmt"
+	"go/types"
 	"os"
 	"runtime/debug"
 	"sort"
@@ -14,6 +15,8 @@ type Ctx struct {
 	P    *Program
 	R    *Report
 	Tier string
+
+	coderPrimCache map[*types.Var][]string
 }
 
 type ConfigLoad struct {
